@@ -218,6 +218,9 @@ def check_case(case):
             elif run.get('infeasible') == 'back' and K > 0:
                 T = n - K
         t = T - n if run.get('negative') else T
+        if entry == 'evaluate' and run.get('oob') is not None:
+            # a position outside the span altogether (both spellings): IndexError from both back-ends, nothing written
+            t = (n + run['oob']) if not run.get('negative') else (-n - 1 - run['oob'])
         opts = dict(run.get('opts') or {})
         if run.get('recheck') is not None and len(Py.ENDOGENOUS) >= 1:
             # solve once, then edit the public `check` list of both twins and solve again (the measured call)
@@ -261,7 +264,8 @@ def check_case(case):
                 (not a.ok and type(a.exc).__name__ == 'SolutionError'):
             res.tag('skipped:non-finite-python-run')
             continue
-        cls = entry + ('/infeasible-period' if run.get('infeasible') and not (L <= T <= n - 1 - K) else
+        cls = entry + ('/out-of-span' if entry == 'evaluate' and run.get('oob') is not None else
+                       '/infeasible-period' if run.get('infeasible') and not (L <= T <= n - 1 - K) else
                        '/max_iter=0' if opts.get('max_iter', 100) == 0 and entry != 'evaluate' else
                        '/offset' if opts.get('offset') and entry != 'evaluate' else '')
         oa, ob = SC.outcome_of(a), SC.outcome_of(b)
@@ -385,7 +389,7 @@ def runs_strategy():
         'entry': st.sampled_from(['evaluate', 'solve_t', 'solve', 'solve_t']),
         'tpos': st.integers(0, 3), 'negative': st.booleans(), 'extra': st.integers(0, 3), 'opts': opts,
         'presolve': st.sampled_from([False, False, True]), 'infeasible': st.sampled_from([None, None, None, 'front', 'back']),
-        'recheck': st.sampled_from([None, None, None, 0, 1]),
+        'recheck': st.sampled_from([None, None, None, 0, 1]), 'oob': st.sampled_from([None, None, None, None, 0, 1]),
         'bases': st.lists(st.lists(st.sampled_from([1.0, 2.0, 0.5, 4.0, 3.0, 0.25, 1.5]), min_size=2, max_size=4), min_size=1, max_size=3),
     })
     return st.lists(run, min_size=3, max_size=6)
